@@ -10,7 +10,7 @@ RECURSIVE StateAfter(_, _)
 StateAfter(h, n) == IF n = 0 THEN Clean ELSE Apply(StateAfter(h, n - 1), h[n])
 
 Bad(e) == {<<i, q>> \in (DOMAIN e.steps) \X Queries :
-             Out(StateAfter(e.hist, i - 1), q) # "unspecified" /\ e.steps[i][q] # Out(StateAfter(e.hist, i - 1), q)}
+             Out(StateAfter(e.hist, i - 1), q, e.fl) # "unspecified" /\ e.steps[i][q] # Out(StateAfter(e.hist, i - 1), q, e.fl)}
 
 Verdict(e) ==
   IF e.fl \notin Flavours THEN "harness: not a flavour of the universe"
@@ -18,10 +18,10 @@ Verdict(e) ==
   ELSE IF Bad(e) = {} THEN ""
   ELSE LET b == CHOOSE x \in Bad(e) : \A y \in Bad(e) : x[1] <= y[1] IN
        "after " \o ToString(b[1] - 1) \o " edits, " \o b[2] \o " gives " \o e.steps[b[1]][b[2]]
-       \o " instead of " \o Out(StateAfter(e.hist, b[1] - 1), b[2])
+       \o " instead of " \o Out(StateAfter(e.hist, b[1] - 1), b[2], e.fl)
 
 \* the single defects this history reached (and that were therefore judged)
-Singles(e) == {x \in AllDefects : \E i \in DOMAIN e.steps : Defects(StateAfter(e.hist, i - 1)) = {x}}
+Singles(e) == {x \in AllDefects : \E i \in DOMAIN e.steps : DefectsF(StateAfter(e.hist, i - 1), e.fl) = {x}}
 
 VARIABLE ti
 TInit == ti = 1 /\ st = Clean /\ hist = <<>>
